@@ -45,6 +45,9 @@ PROPS = {
             "the inherent methods are uninterpreted functions of (state, request): what they do is the subject of "
             "C02-C11, not of C18",
             "async scheduling (rule R1 reads the forwarding bodies sequentially)",
+            "the request / response messages are models in the unit: the real Options and status-code items, pinAuth / pinProtocol by presence "
+            "(Option<Vec<u8>> stands for Option<Bytes>), every other member opaque; a forwarding body that reads another member is rejected by "
+            "Verus (exit 2, undecided) and is then decided only by the bounded c18-trait sweep on the real crate",
         ],
     },
     "C01": {
